@@ -1,0 +1,15 @@
+//go:build verif
+
+package server
+
+// Contracts for deductive verification (read by /verif/govc). This file holds
+// comments only: it cannot change behaviour with the build tag on or off.
+
+//@ unit isNewMaster
+//@ requires cand != nil
+//@ ensures[nil-exist] exist == nil ==> result0 && !result1
+//@ ensures[order] exist != nil ==> (result0 <==> u128(cand.High, cand.Low) >= u128(exist.High, exist.Low))
+//@ ensures[tie] exist != nil ==> (result1 <==> u128(cand.High, cand.Low) == u128(exist.High, exist.Low))
+//@ ensures[noerr] result2 == nil
+//@ assigns nothing
+//@ props C05 C04
